@@ -13,7 +13,7 @@ RULE = ("shapes with 1..5 axes and lengths 1..6 (unequal preferred) with product
         "axes) plus duplicate / out-of-range / all-axes requests; random integer data (exact in f64, no ramp masking); "
         "exact comparison with the model; on the implementation: joint = one-at-a-time with renumbering, and every "
         "order gives identical output; CLI -m / -M on text input for a slice. non-trivial = a successful marginalization "
-        "of >= 1 axis")
+        "of >= 1 axis; spectra of 65-130 axes with -m / -M lists naming axes 63, 64, 65 and beyond, and entries of 2^32 and more")
 
 
 def fmt(l):
@@ -201,6 +201,19 @@ def check(rep, tier, seed):
         for kl in ([a] * d, [a, a], [a, d + 3] + [a] * (d - 2), list(range(d)) + [0], [a] + [rng.randrange(d) for _ in range(d - 1)]):
             jobs.append((["view", "-M", ",".join(map(str, kl)), "--precision", "1"], text_spectrum(sh, ints)))
             exp_cases.append("viewrun k:%s - 0 0 %s %s" % (fmt(kl), fmt(sh), ",".join(ints)))
+    # many axes (more than the 64 bits of a machine word; most of length one): -m / -M lists naming axes 63, 64, 65 and beyond,
+    # kept and removed, and keep-list entries far outside the spectrum (2^32, 2^32 + 1: they name no axis and keep none)
+    for nax in (65, 66, 70, 130):
+        sh = [1] * nax
+        for a_, n_ in ((0, 2), (3, 3), (nax - 2, 3), (nax - 1, 2), (63 if nax > 64 else 5, 2)):
+            sh[a_] = n_
+        ints = [str(rng.randrange(0, 50)) for _ in range(elements(sh))]
+        for kl in ([0, nax - 2], [nax - 2, 0], [64, 3], [nax - 1], [63, 64, 65], [3, 2**32 + 3], [2**32, 0], [nax - 2, nax - 1, 2**32 + nax - 1]):
+            jobs.append((["view", "-M", ",".join(map(str, kl)), "--precision", "1"], text_spectrum(sh, ints)))
+            exp_cases.append("viewrun k:%s - 0 0 %s %s" % (fmt(kl), fmt(sh), ",".join(ints)))
+        for ml in ([i for i in range(nax) if i not in (0, nax - 2)], [nax - 1, 64, 1], list(range(1, nax))):
+            jobs.append((["view", "-m", ",".join(map(str, ml)), "--precision", "1"], text_spectrum(sh, ints)))
+            exp_cases.append("marg %s %s %s" % (fmt(sh), ",".join(ints), fmt(ml)))
     # inadmissible lists through the binary: an axis named twice (adjacent or not), out of range, all axes, too many
     for sh, data in list(pool)[:8 if tier == "quick" else 60]:
         d = len(sh)
